@@ -648,14 +648,37 @@ func c01R3(p *Prog, r *Report) {
 	}
 	// the streams must not be trimmed by the per-channel goroutines themselves: primaries of all
 	// channels (and then the secondaries cut from them) are still to be read from the streams
+	preAppendTrim := false
 	if len(gosPrim)+len(gosSec) > 0 {
 		var inGo ssa.Instruction
+		isPrim := map[ssa.Instruction]bool{}
+		for _, gd := range gosPrim {
+			isPrim[gd.In] = true
+		}
 		for _, gd := range append(append([]DeepInstr{}, gosPrim...), gosSec...) {
 			for _, f := range ResolveOr(p, gd.In.(*ssa.Go)) {
 				InstrsDeep(f, 2, func(x DeepInstr) {
-					if calleeNamed(x.In, "TrimStream", "TrimKeepingN") {
-						inGo = x.In
+					if !calleeNamed(x.In, "TrimStream", "TrimKeepingN") {
+						return
 					}
+					// a trim at the head of the per-channel step, before the new segment is appended,
+					// removes what only the previous block's records could need (all cut by then):
+					// the same as a trim at the end of the previous block
+					if isPrim[gd.In] {
+						ok := false
+						for _, li := range append(append([]ssa.Instruction{}, x.Path...), x.In) {
+							Instrs(li.Parent(), func(y ssa.Instruction) {
+								if calleeNamed(y, "AppendSegment") && InstrReaches(li, y) && !InstrReaches(y, li) {
+									ok = true
+								}
+							})
+						}
+						if ok {
+							preAppendTrim = true
+							return
+						}
+					}
+					inGo = x.In
 				})
 			}
 		}
@@ -664,7 +687,7 @@ func c01R3(p *Prog, r *Report) {
 			return
 		}
 	}
-	if len(waits) < 2 || len(gosPrim) == 0 || len(gosSec) == 0 || len(dist) == 0 || len(trims) == 0 {
+	if len(waits) < 2 || len(gosPrim) == 0 || len(gosSec) == 0 || len(dist) == 0 || (len(trims) == 0 && !preAppendTrim) {
 		r.Unk("C01.R3", "ProcessSegments fan-out/fan-in shape", p.Pos(ps.Pos()), fmt.Sprintf("expected two WaitGroup.Wait, primary and secondary goroutines, Distribute and TrimStream in ProcessSegments or its helpers; found waits=%d prim=%d sec=%d distribute=%d trim=%d", len(waits), len(gosPrim), len(gosSec), len(dist), len(trims)))
 		return
 	}
@@ -677,6 +700,9 @@ func c01R3(p *Prog, r *Report) {
 	}
 	for _, g := range gosSec {
 		r.Check(DeepDominates(dist[0], g) && DeepReaches(g, w2) && !DeepReaches(w2, g), "C01.R3", "secondary processing joins before trimming", p.InstrPos(g.In), "started after Distribute, joined by the second Wait", "a secondary-processing goroutine is not joined before the streams are trimmed")
+	}
+	if len(trims) == 0 && preAppendTrim {
+		r.OK("C01.R3", "streams trimmed only after all records are cut", p.Pos(ps.Pos()), "each stream is trimmed at the head of its per-channel step, before the next segment is appended (every record of the previous block has been cut by then)")
 	}
 	for _, t := range trims {
 		r.Check(DeepDominates(w2, t), "C01.R3", "streams trimmed only after all records are cut", p.InstrPos(t.In), "TrimStream is dominated by the second Wait", "a stream can be trimmed while a channel may still be cutting (secondary) records from it")
